@@ -21,18 +21,22 @@ type spec struct {
 	Consumer string // ack | hold | nack1 | noread
 	Fallback int     // preemption bound of the fallback search when DPOR does not finish in DPORSec
 	DPORSec  float64
+	Backlog  int    // persistent mode: messages published before the first subscription (replayed to every Subscribe)
 	Actors   string // e.g. "close", "close+close", "close+subscribe", "cancel", "cancel+close", "cancel+subscribe", "close+publish2"
 	C        int
 }
 
 func (s spec) name() string {
+	if s.Backlog > 0 {
+		return fmt.Sprintf("%s/deco%d/%s/backlog%d/%s", s.Cfg, s.Deco, s.Consumer, s.Backlog, s.Actors)
+	}
 	return fmt.Sprintf("%s/deco%d/%s/%s", s.Cfg, s.Deco, s.Consumer, s.Actors)
 }
 
 func scenario(sp spec) *explore.Scenario {
 	return &explore.Scenario{
 		Name: sp.name(), C: sp.Fallback, DPOR: true, DPORSeconds: sp.DPORSec,
-		Opts: vs.Options{PostRelease: false},
+		Opts: vs.Options{PostRelease: false, SpawnYield: sp.Backlog > 0},
 		Body: func() { body(sp) },
 	}
 }
@@ -57,6 +61,11 @@ func body(sp spec) {
 			return
 		}
 		sub = d
+	}
+	for i := 0; i < sp.Backlog; i++ {
+		if err := g.Publish("t", hx.Msg(fmt.Sprintf("old%d", i))); err != nil {
+			vs.Fail("publish-error", "%v", err)
+		}
 	}
 	ctx1, cancel1 := context.WithCancel(context.Background())
 	ch1, err := sub.Subscribe(ctx1, "t")
@@ -230,6 +239,28 @@ func init() {
 	withPub := []aset{{"pub+close", -1, -1, reg.Quick}, {"pub+cancel", -1, -1, reg.Quick},
 		{"pub+close+close", 1, 2, reg.Thorough}, {"pub+close+subscribe", 1, 2, reg.Thorough}, {"pub+cancel+close", 1, 2, reg.Thorough}, {"pub+pub2+close", 1, 2, reg.Thorough}}
 	noPub := []aset{{"close+close", -1, -1, reg.Quick}, {"close+subscribe", -1, -1, reg.Quick}, {"cancel+close", -1, -1, reg.Quick}, {"cancel+subscribe", -1, -1, reg.Quick}}
+	// Close / cancel / Subscribe while the backlog of a persistent topic is being replayed
+	for _, cfg := range hx.AllGCfg(0, 1) {
+		if !cfg.Persistent {
+			continue
+		}
+		for _, deco := range []int{0, 1} {
+			for _, cons := range []string{"ack", "hold"} {
+				for _, a := range []string{"close", "cancel", "close+subscribe"} {
+					tier := reg.Quick
+					if deco == 1 || cfg.Buf > 0 || a == "cancel" {
+						tier = reg.Thorough
+					}
+					add(tier, 1, spec{Cfg: cfg, Deco: deco, Consumer: cons, Backlog: 1, Actors: a, C: -1}, -1)
+					if a == "close" && deco == 0 && cfg.Buf == 0 {
+						// the replay loop starts one goroutine per message: with two messages, and `go` as a
+						// scheduling point, Close can run between the two starts
+						add(reg.Quick, 1, spec{Cfg: cfg, Deco: deco, Consumer: cons, Backlog: 2, Actors: a, C: -1}, -1)
+					}
+				}
+			}
+		}
+	}
 	for _, cfg := range hx.AllGCfg(0, 1) {
 		for _, deco := range []int{0, 1, 2} {
 			for _, a := range withPub {
